@@ -956,6 +956,7 @@ SAMPLES = [
     # several files handed over as the caller's own list (not in name order)
     ("read_spotter", ["spotter_20210929b.csv", "spotter_20210929.csv"], {}), ("read_datawell", ["datawell/buoy}2024-09-09T01h44Z.spt", "datawell/buoy}2024-09-09T01h15Z.spt"], {}),
     ("read_ww3", ["ww3file.nc"], {}), ("read_spotter", ["spotter_20210929b.csv", "spotter_20210929.csv"], {}),
+    ("read_obscape", ["obscape/19800102_123456_Obscape2d_course.csv"], {}), ("read_obscape", ["obscape/19900102_123456_Obscape2d_fine.csv", "obscape/19900102_123456_Obscape2d_fine.csv"], {}),
 ]
 
 
